@@ -369,6 +369,8 @@ func (e *Engine) markerImplements(marker string, t types.Type) bool {
 		if n, ok := t.(*types.Named); ok && n.Obj().Pkg() == nil && n.Obj().Name() == "error" {
 			return true
 		}
+	case "pubkey":
+		return namedIs(t, "github.com/libp2p/go-libp2p/core/crypto", "PubKey")
 	}
 	return false
 }
@@ -718,7 +720,9 @@ func (e *Engine) firePending(i int) {
 	}
 	p.Done = true
 	G0 := e.G
-	g := e.tb.And(G0, p.G)
+	// the goroutine runs in every world in which it was spawned (its own guard), not only in the worlds
+	// of the code that happens to trigger the firing: it is an independent thread
+	g := p.G
 	if !g.IsFalse() {
 		e.G = g
 		p.Fn.(func())()
